@@ -397,7 +397,14 @@ func GenRounds(prop string, r *sim.Rand, tier string) sim.Script {
 				s.Ops = append(s.Ops, Op{K: "merge", T: kidx})
 			}
 		}
+		syncAt := -1
+		if rd > 0 && r.Chance(1, 10) {
+			syncAt = r.Intn(maxTxn + 1)
+		}
 		for t := r.Intn(maxTxn + 1); t > 0; t-- {
+			if t == syncAt {
+				s.Ops = append(s.Ops, Op{K: "sync"})
+			}
 			if r.Chance(1, 5) {
 				s.Ops = append(s.Ops, mut(0)) // direct block update
 			}
@@ -411,6 +418,9 @@ func GenRounds(prop string, r *sim.Rand, tier string) sim.Script {
 			} else {
 				s.Ops = append(s.Ops, Op{K: "discard", T: kidx})
 			}
+		}
+		if syncAt == 0 {
+			s.Ops = append(s.Ops, Op{K: "sync"})
 		}
 		if r.Chance(1, 4) {
 			s.Ops = append(s.Ops, Op{K: "save"})
@@ -447,9 +457,9 @@ func GenSched(r *sim.Rand, tier string) sim.Script {
 		var ops []Op
 		for i := 2 + r.Intn(5); i > 0; i-- {
 			p := pool[r.Intn(len(pool))]
-			w := []int{30, 18, 25, 8, 5, 4, 3, 4, 3, 6, 3, 3}
+			w := []int{30, 18, 25, 8, 5, 4, 3, 4, 3, 6, 3, 3, 3}
 			if lossy {
-				w = []int{0, 0, 40, 10, 5, 15, 10, 0, 3, 0, 3, 0}
+				w = []int{0, 0, 40, 10, 5, 15, 10, 0, 3, 0, 3, 0, 0}
 			}
 			switch r.Weighted(w) {
 			case 0:
@@ -479,6 +489,8 @@ func GenSched(r *sim.Rand, tier string) sim.Script {
 			case 11:
 				n++
 				ops = append(ops, Op{K: "mergedb", P: p, V: []byte(fmt.Sprintf("d%d", n))})
+			case 12:
+				ops = append(ops, Op{K: "savecancel"})
 			}
 		}
 		s.Tasks = append(s.Tasks, ops)
